@@ -26,18 +26,24 @@ use gimli::{constants as c, Register};
 use serde_json::{json, Value};
 use std::collections::{BTreeSet, HashMap};
 
+#[path = "c19_split.rs"]
+mod split;
+
 pub fn info() -> PropInfo {
     PropInfo {
         id: "C19",
         level: "exploration",
-        rule: "Seeded forests of 1-3 units with 3-40 non-root entries in total (built with gimli::write, every non-root entry named u<unit>e<k>), containers {subprogram (top level / under a namespace only), structure_type, namespace, lexical_block}, member-like tags {formal_parameter, member, variable, lexical_block}, stand-alone tags {base_type, structure_type, typedef, pointer_type, namespace}; reference edges of kinds attr.unit_ref, attr.debug_info_ref (cross-unit), expr.typed (deref_type/regval_type/const_type/convert/reinterpret), expr.call, expr.call_ref, expr.parameter_ref, loclist.<same kinds>, plus (separate stream, known finding) expr.implicit_pointer / expr.variable_value / expr.entry_value-nested; cycles arise freely.  For forests with <= 10 entries EVERY subset of required entries is converted (2^n filtered conversions per forest), larger forests use {empty, all, every singleton (<= 12), 16 random subsets}.  Each filtered conversion is one evaluation; it is non-trivial when the model closure is neither empty nor everything or the required set is non-empty; distinct by digest of (input sections, required set).",
+        rule: "Seeded forests of 1-3 units with 3-40 non-root entries in total (built with gimli::write, every non-root entry named u<unit>e<k>), containers {subprogram (top level / under a namespace only), structure_type, namespace, lexical_block}, member-like tags {formal_parameter, member, variable, lexical_block}, stand-alone tags {base_type, structure_type, typedef, pointer_type, namespace}; reference edges of kinds attr.unit_ref, attr.debug_info_ref (cross-unit), expr.typed (deref_type/regval_type/const_type/convert/reinterpret), expr.call, expr.call_ref, expr.parameter_ref, loclist.<same kinds>, plus (separate stream, known finding) expr.implicit_pointer / expr.variable_value / expr.entry_value-nested; cycles arise freely.  For forests with <= 10 entries EVERY subset of required entries is converted (2^n filtered conversions per forest), larger forests use {empty, all, every singleton (<= 12), 16 random subsets}.  Each filtered conversion is one evaluation; it is non-trivial when the model closure is neither empty nor everything or the required set is non-empty; distinct by digest of (input sections, required set).  Split-unit filters (props/c19_split.rs): seeded hand-assembled (crate::asm) DWARF 5 skeleton + .dwo pairs (both byte orders, both formats, address sizes 2/4/8; skeleton with DW_AT_dwo_name, non-zero DW_AT_addr_base, DW_AT_low_pc as addrx or addr; .debug_addr = a foreign table of tombstones/zeros followed by the unit's table whose live slots sit between -1 / -2 / zero slots; split unit with 2-12 entries named u0e<k>, same tag convention, .debug_loclists/.debug_rnglists with offset tables, .debug_str_offsets, decoy .debug_addr in the .dwo) loaded with Dwarf::make_dwo; edges through DW_FORM_ref4, exprloc (DW_OP_call4, DW_OP_GNU_parameter_ref, deref_type/regval_type/const_type/convert/reinterpret to top-level base types) and location lists in DW_FORM_loclistx or sec_offset form whose carrying entry is DW_LLE_startx_length, startx_endx, base_addressx+offset_pair, offset_pair relative to the skeleton's low_pc, default_location, start_length or start_end, next to dead entries (tombstone / zero slots, zero length, empty pairs); DW_AT_ranges as rnglistx/sec_offset and DW_AT_low_pc as addrx for the callback observations.  For every subset of required entries (<= 10 entries: all 2^n, else {empty, all, 12 singletons, 16 random}) ConvertUnit::convert_split and FilterUnitSection::new_split + convert_split_with_filter are run, written and read back; each filtered split conversion is one evaluation, non-trivial when the required set is non-empty, distinct by digest of (both files, required set).",
         assumptions: &[
             "exact minimality follows DESIGN.md Appendix A.9: only member-like children (parameters, members, variables, blocks) of non-namespace, non-root parents are pulled in by a retained parent; only tags whose category is unambiguous in the property statement are generated; subprograms occur only at top level or directly under a namespace, where their category does not matter",
             "a filtered conversion may fail only if the unfiltered conversion of the same input fails",
             "roots (unit entries) are always part of the output, with the attributes of the unfiltered conversion",
-            "split-unit filters (convert_split_with_filter) and out-of-bounds / non-entry references are not generated (see REPORT.md)",
+            "out-of-bounds / non-entry references are not generated (see REPORT.md)",
+            "split-unit filters: only DWARF 5 pairs with one split compilation unit loaded through Dwarf::make_dwo (no GNU v4 split units, no DwarfPackage::find_cu, no split type units, no line programs, no DW_FORM_ref_addr / DW_OP_call_ref inside the .dwo); the skeleton root's DW_AT_low_pc is converted onto the output root in both the filtered and the unfiltered run, as the convert example does",
+            "split-unit filters: every entry of a location list counts as a reference source, also entries whose address range is a tombstone or empty (the conversion copies their expressions); while c19_split::SKIP_DEAD_ENTRY_REFS is true such references are generated only in the observation-only streams split.known.* (genuine finding, see REPORT.md)",
+            "split-unit filters, callback observations: the unit handed to the filter loop (FilterUnit::read_unit, FilterUnitEntry::read_unit) must carry the skeleton's low_pc and addr_base; ranges resolved through it follow DWARF 5 2.17.3 / 7.7.3 with the pinned representation of DW_LLE_default_location as (0, u64::MAX)",
         ],
-        exhaustive_subspaces: &["every subset of required entries for every generated forest with <= 10 non-root entries"],
+        exhaustive_subspaces: &["every subset of required entries for every generated forest with <= 10 non-root entries", "every subset of required entries for every generated skeleton + split unit pair with <= 10 entries"],
         must_observe: &[
             "forest.small.exhaustive",
             "forest.large.sampled",
@@ -61,6 +67,33 @@ pub fn info() -> PropInfo {
             "closure.proper_subset",
             "filtered.ok",
             "attrs.compared",
+            "split.unfiltered.ok",
+            "split.filtered.ok",
+            "split.subsets.exhaustive",
+            "split.subsets.sampled",
+            "split.edge.attr.unit_ref",
+            "split.edge.expr.call",
+            "split.edge.expr.parameter_ref",
+            "split.edge.expr.typed",
+            "split.edge.lle.startx_length",
+            "split.edge.lle.startx_endx",
+            "split.edge.lle.base_addressx+offset_pair",
+            "split.edge.lle.unit_base+offset_pair",
+            "split.edge.lle.default_location",
+            "split.edge.lle.start_length",
+            "split.edge.lle.start_end",
+            "split.edge.list_form.loclistx",
+            "split.edge.list_form.sec_offset",
+            "split.edge.only_from_indexed_entry",
+            "split.graph.cycle",
+            "split.closure.proper_subset",
+            "split.backedge.member_like.pulled",
+            "split.backedge.not_pulled",
+            "split.callback.unit_fields",
+            "split.callback.address",
+            "split.callback.ranges",
+            "split.callback.locations",
+            "split.attrs.compared",
         ],
         run,
     }
@@ -775,6 +808,8 @@ fn witness_forest(enc: Enc, kind: EdgeKind) -> Option<Forest> {
 }
 
 pub fn run(ctx: &mut Ctx) {
+    // clause "split-unit filters" (props/c19_split.rs)
+    split::run(ctx);
     // minimal witnesses of the known finding (and the control: call_ref, which is followed)
     for (i, kind) in [EdgeKind::ExprCallRef, EdgeKind::ExprImplicitPointer, EdgeKind::ExprVariableValue, EdgeKind::ExprNested].into_iter().enumerate() {
         if !ctx.want_hashed("known.witness", i as u64) {
